@@ -30,6 +30,7 @@ sys.path.insert(0, HERE)
 import tlc                                              # noqa: E402
 import families                                         # noqa: E402
 import tvfam                                            # noqa: E402
+import scenario                                         # noqa: E402
 
 PY = "/venv/bin/python"
 REPO = os.environ.get("VERIF_REPO", "/repo")
@@ -113,6 +114,7 @@ ATTR = [
     (r"^results-nested-scheduler$", ["C14", "C10"]),
     (r"^results-exception$", ["C14", "C06"]),
     (r"^results-", ["C14"]),
+    (r"^no-progress-explicit-shutdown$", ["C13", "C03"]),
     (r"^no-progress-", ["C03"]),
     (r"^top-early$", ["C03", "C11"]),
     (r"^top-other$", ["C04"]),
@@ -161,6 +163,7 @@ def record(scenarios, workdir, tag):
         # fields added to the configuration over time (replays recorded before they existed)
         sc["cfg"].setdefault("cwait", [0] * sc["cfg"]["n"])
         sc["cfg"].setdefault("preshut", False)
+        sc["cfg"].setdefault("xshut", False)
         sc["cfg"].setdefault("scdur", [0] * sc["cfg"]["n"])
         sc["cfg"].setdefault("ucancel", -1)
     with open(scf, "w") as out:
@@ -243,9 +246,13 @@ def shard_job(args):
             if (j + 1) in acc2:
                 raise tlc.TlcFailure("trace accepted by the diagnosis pass only")
             pos, items = front.get(j + 1, (0, {("?", 0, "no-frontier")}))
+            syms = front.get(("sym", j + 1), [])
+            if not scenario.admissible(traces[i]["cfg"]):
+                # a hang is no symptom of C03 outside its hypothesis
+                syms = [p for p in syms if p != "C03"]
             rejected.append({"scenario": scenarios[i], "trace": traces[i],
                              "at": pos, "frontier": sorted(items),
-                             "symptoms": front.get(("sym", j + 1), [])})
+                             "symptoms": syms})
     os.remove(trf)
     return traces, rejected, gen, dist
 
@@ -424,7 +431,7 @@ def flatten(cfg):
             "parent": [0] + [1] * (m - 1),
             "req": [[]] + [sorted(newid[r] for r in flatreq(a)) for a in atoms],
             "horizon": cfg.get("horizon", 0), "ucancel": cfg.get("ucancel", -1),
-            "cwait": [0] * m, "preshut": bool(cfg.get("preshut", False))}
+            "cwait": [0] * m, "preshut": bool(cfg.get("preshut", False)), "xshut": bool(cfg.get("xshut", False))}
     for key in ("crit", "forever", "win", "tmo", "stmo", "dur", "out", "sdur", "cdur", "scdur"):
         flat[key] = [cfg[key][0]] + [cfg[key][a - 1] for a in atoms]
     back = [1] + atoms
@@ -745,6 +752,8 @@ def predictable(trace):
     at most 3 completions in any one instant"""
     if trace["cfg"]["n"] > 8 or (trace.get("harness") or {}).get("stall"):
         return False
+    if any(e["k"] == "top" and e["v"] in ("deadlock", "livelock") for e in trace["ev"]):
+        return False        # a run that hangs has no outcome to predict (C03's family, outside its hypothesis)
     per = {}
     for e in trace["ev"]:
         if e["k"] in ("end", "raise", "cancel-done", "shut-done"):
